@@ -16,6 +16,7 @@ import sys
 
 from . import common as C
 from . import ruleeval as RE
+from . import notations as NT
 from . import exprs as X
 from . import speechtexts as ST
 from . import c05
@@ -111,6 +112,9 @@ def oracle(res):
         exprs.append((X.math("<msqrt><mrow><mn>1%s5</mn><mo>+</mo><mfrac><mrow><mn>3%s5</mn><mo>+</mo><mi>x</mi></mrow><mrow><mn>2%s5</mn><mo>-</mo><mi>y</mi></mrow></mfrac></mrow></msqrt>" % (m, m, m)),
                       ["1%s5" % m, "3%s5" % m, "2%s5" % m]))
         exprs.append((X.math("<mrow><mroot><mi>x</mi><mn>%s</mn></mroot><mo>+</mo><munder><mi>lim</mi><mrow><mi>x</mi><mo>&#x2192;</mo><mn>%s</mn></mrow></munder><mfrac><mn>%s</mn><mn>%s</mn></mfrac></mrow>" % (a, b, c, d)), [a, b, c, d]))
+        # the notations the intent rules recognise (binomials, limits, norms, intervals, units, ...), literals at their operand positions
+        for _, body, lits in NT.instances(mark(lang)):
+            exprs.append((X.math(body), lits))
         ops = [["set_rules_dir", C.RULES], ["set_preference", "TTS", "None"], ["set_preference", "Language", lang], ["set_preference", "SpeechStyle", style],
                ["set_preference", "Verbosity", verb]]
         for e, _ in exprs:
